@@ -137,7 +137,7 @@ func c03Programs(all bool, maxNonDefault int) []*gen.Pipeline {
 
 func c03Main(r *run.Runner) {
 	r.Rule = "explicit-state exploration of join compilation: every program `L <prefix> | join [kind=K] (R <right>) on <cond> <suffix>` over 9 left prefixes x 4 kinds x 10 right-hand pipelines (two with nested joins) x 9 condition forms x 10 suffixes (two with a second join) - quick: all combinations with at most three non-default parts - is compiled; " +
-		"the emitted SQL is executed by the list-semantics SQL evaluator on every pair of small tables L(k,x), R(k,y) (all row lists of <= 2 rows over k in {NULL,1,2}, x,y in {1,2}) and C(k,w), and compared with the reference join semantics applied by the pipeline interpreter. states = programs, transitions = operator applications, traces validated = (program, database) executions"
+		"plus wide families (joins with k conditions, sequences of k joins, right-hand sides nested k deep, k up to 65 / 17); the emitted SQL is executed by the list-semantics SQL evaluator on every pair of small tables L(k,x), R(k,y) (all row lists of <= 2 rows over k in {NULL,1,2}, x,y in {1,2}) and C(k,w), and compared with the reference join semantics applied by the pipeline interpreter. states = programs, transitions = operator applications, traces validated = (program, database) executions"
 	r.Assume = []string{"result columns of a join = left columns then right columns", "references to a column name present on both sides after the join are not generated; programs whose reference evaluation is undefined (ambiguous name) are skipped and counted"}
 	prefixes, kinds, rights, conds, suffixes := c03Parts()
 	type prog struct{ a, k, b, c, d int }
